@@ -641,6 +641,10 @@ class FileProcessTensor(BaseProcessTensor):
         if self._write and self._f is not None:
             self._f.attrs['name'] = self._name
 
+    @name.deleter
+    def name(self):
+        self.name = None
+
     @property
     def description(self):
         """Detailed description of the object. """
@@ -656,6 +660,10 @@ class FileProcessTensor(BaseProcessTensor):
         self._description = new_description
         if self._write and self._f is not None:
             self._f.attrs['description'] = self._description
+
+    @description.deleter
+    def description(self):
+        self.description = None
 
     @property
     def filename(self):
